@@ -3956,7 +3956,24 @@ where
               self.add_error(format!("expected type {}, got {:?}", ident, self.cbor));
             }
           }
-          _ => (),
+          _ => {
+            // Tagged types of the standard prelude (uri, b64url, cbor-any, ...)
+            if let Some(tagged_data_type) = tag_from_token(&token) {
+              return self.visit_type2(&tagged_data_type);
+            }
+
+            // integer = int / bigint, unsigned = uint / biguint
+            let is_bignum_content = matches!(value.as_ref(), Value::Bytes(_));
+            match token {
+              Token::INTEGER if (*tag == 2 || *tag == 3) && is_bignum_content => return Ok(()),
+              Token::UNSIGNED if *tag == 2 && is_bignum_content => return Ok(()),
+              _ => (),
+            }
+
+            if !is_ident_any_type(self.state.cddl, ident) {
+              self.add_error(format!("expected type {}, got {:?}", ident, self.cbor));
+            }
+          }
         }
 
         Ok(())
